@@ -2,12 +2,8 @@
 
 
 def classify(case):
-    """the one recorded class: Prune panicked inside its abort of an old unready change whose task order makes the change
-    transiently all-ready (DESIGN finding 11 reached through Prune): observed panic AND the driver's independent
-    evaluation of that shape on the state before Prune"""
-    obs = case.get("observed") or {}
-    if obs.get("panicked") and obs.get("panic_shape"):
-        return "prune-abort-transient-ready-panic"
+    """no recorded finding: the panic of Prune's abort (DESIGN finding 11) is repaired in /repo (d3068df); a panic is an
+    ordinary violation"""
     return None
 
 
@@ -32,7 +28,7 @@ SPEC = dict(
     trusted_base=[
         "hand-written model coq/models/Prune.v of State.Prune (overlord/state/state.go), tied by the differential run (harness/overlay/overlord/state/zz_verif_c09_test.go)",
         "sort.Sort(byReadyTime) is modelled as a stable insertion sort; the theorems hold for every sorted visiting order; the driver avoids equal ready times",
-        "Change.AbortUnreadyLanes is modelled only for changes whose tasks are all in the default lane and not in Wait (then it visits every task in order); the lane closure in general is C01's subject",
+        "Change.AbortUnreadyLanes is modelled only for changes whose tasks are all in the default lane and not in Wait (then it rewrites every task and readiness is evaluated once afterwards, as /repo does since d3068df); the lane closure in general is C01's subject",
         "the clock: Prune reads time.Now(); the driver keeps every generated instant at least 29 minutes away from every limit",
     ],
     assumptions=[
